@@ -20,7 +20,7 @@ func init() {
 		Run:      runC13,
 		Explanation: "Decides structural necessary conditions of 'a ring client's answers depend only on the latest ring content': (R1) every field of InstanceDesc is classified by the equality shortcut: a difference in it makes RingCompare return Different (CMP), or only clears the equal-states-and-timestamps flag (VOL), or the field is derived from the map key before the comparison (DERIVED); the volatile fields are exactly the fields refreshed into cached subrings, in both cache getters; " +
 			"(R2) the index builders and the shard-membership cone read no volatile field; (R3) whoever replaces the token index also resets both subring caches and the topology stamp, and cache fills are guarded by topology-stamp equality; (R4) cache keys contain every parameter (getter and setter agree); (R5) PartitionRing objects are immutable after construction, their cache is freshly allocated, the watcher swaps rings under its lock; " +
-			"(R6) the look-back cache validity bound is lowered by every timestamp field that the shard walk compares with the look-back threshold, under no further condition. Also: (R7) the token→instance map shared with subrings is immutable (replaced, never modified, never handed out); (R8) a topology change replaces every derived Ring field unconditionally; (R9) a subring is selected and assembled under one hold of the ring lock, so a cached shard never carries a newer topology stamp than its content (shared with C05.R12). NOT decided: equality of all answers over all histories, correctness of the validity-window arithmetic beyond R6.",
+			"(R6) the look-back cache validity bound is lowered by every timestamp field that the shard walk compares with the look-back threshold, under no further condition. Also: (R7) the token→instance map shared with subrings is immutable (replaced, never modified, never handed out); (R8) a topology change replaces every derived Ring field unconditionally; (R9) a subring is selected and assembled under one hold of the ring lock, so a cached shard never carries a newer topology stamp than its content (shared with C05.R12). (R1 also) the refresh of states and heartbeats runs on every path that answers with a cached subring other than the ring itself; (R10) every element-wise list comparison of package ring visits every index (shared with C05.R13). NOT decided: equality of all answers over all histories, correctness of the validity-window arithmetic beyond R6.",
 	}
 }
 
